@@ -407,6 +407,7 @@ def _parse_text(entry: str, s: str) -> bool:
 
 def _named_cases():
     cases = [{"entry": e, "s": t} for e, t in SEEDS]
+    cases += [{"entry": e, "s": t} for e, t in G.sentence_texts()]
     cases += [
         {"entry": "document", "s": "{ ... \"on\" T { a } }"},
         {"entry": "document_ts", "s": "type A \"implements\" B { f: T }"},
